@@ -1311,6 +1311,8 @@ def rdkit_compare(ck, s, kind):
         return False
     if mol is not None and isinstance(mol, MoleculeContainer) and not mol.meta.get('chython_parsing_log'):
         bond_count_oracle(ck, s, mol)
+    if mol is not None and isinstance(mol, MoleculeContainer) and '[' in s:
+        mismatch_oracle(ck, s, mol)
     try:
         rd = rdkit_graph(s)
     except Exception:  # noqa
@@ -1678,6 +1680,51 @@ def cx_radical_oracle(ck, s):
     return True
 
 
+# written hydrogen counts: a bracket atom carries the EXACT count written, and the reader may replace it by the calculated one (reporting
+# the written count in chython_implicit_mismatch) only when the written count is NOT a valid valence state of the atom. Oracle independent of
+# create_molecule's decision chain and of the model: for every non-aromatic atom reported in chython_implicit_mismatch the library's own valence
+# test check_implicit(n, written) (C04's subject) on the molecule built must say "invalid". RDKit's total hydrogen count is given as a second opinion.
+
+def mismatch_oracle(ck, s, res):
+    """res: molecule or reaction built from s. returns the number of atoms checked"""
+    from chython.containers import MoleculeContainer
+    mols = [res] if isinstance(res, MoleculeContainer) else list(res.molecules()) if hasattr(res, 'molecules') else []
+    done = 0
+    for mol in mols:
+        mm = (mol.meta or {}).get('chython_implicit_mismatch') or {}
+        for n, h in mm.items():
+            if n not in mol._atoms or any(int(b) == 4 for b in mol._bonds[n].values()):
+                continue                       # aromatic atoms: the written count is compared with the calculated one only
+            done += 1
+            ck.count('hydrogen-mismatch-oracle:reported atoms checked')
+            try:
+                valid = mol.check_implicit(n, h)
+            except Exception:  # noqa
+                continue
+            if valid:
+                a = mol._atoms[n]
+                ck.counterexample(f'valid-hydrogen-count-replaced:{s}', 'a written hydrogen count that is a valid valence state of the atom is replaced by the calculated one',
+                                  {'smiles': s, 'atom': n, 'element': a.atomic_symbol, 'written_H': h}, {'implicit_hydrogens': a.implicit_hydrogens, 'reported_mismatch': h},
+                                  {'implicit_hydrogens': h}, 'MoleculeContainer.check_implicit(atom, written count) on the molecule built says the written count is valid',
+                                  replay_py=f"from chython import smiles\nr = smiles({s!r})\nms = list(r.molecules()) if hasattr(r, 'molecules') else [r]\n"
+                                            f"print([[(a.atomic_symbol, a.implicit_hydrogens) for _, a in m.atoms()] for m in ms], [m.meta for m in ms])")
+    return done
+
+
+def gen_hydrogen_texts(rng, n):
+    """bracket atoms with a written hydrogen count - alone, as a dot component, in a chain, as a member of a reaction"""
+    import chython
+    els = [c().atomic_symbol for c in chython.periodictable.Element.__subclasses__() if c().atomic_number <= 103]
+    out = [f'[{el}{h}]' for el in els for h in ('', 'H', 'H2', 'H3', 'H4')]
+    for _ in range(n):
+        el = rng.choice(HYD_ELEMENTS + ['Ge', 'Te', 'As', 'Sn', 'Pb', 'Ga', 'Mg', 'Zn', 'Pd', 'Li', 'K', 'Cu'])
+        a = f'[{el}{rng.choice(("", "", "H", "H2", "H3", "H4"))}{rng.choice(("", "", "", "+", "-", "+2"))}]'
+        form = rng.randrange(7)
+        other = rng.choice(['C', 'CC', 'O', 'CC(=O)Cl', '[Pd]', '[Na+]', 'c1ccccc1', 'CCO'])
+        out.append([a + '.' + other, other + '.' + a, 'C' + a, 'C' + a + 'C', a + '=O', 'CCO>' + a + '>CC=O', other + '.' + a + '>>' + other][form])
+    return out
+
+
 # lexeme level: every short sequence of lexical items of the language (complete AND unfinished ones: '%', '%1', '[', a bond symbol ...) in a
 # context that completes it. The character sweeps end after 3 characters and never put, e.g., a whole bracket atom behind an unfinished
 # '%'-closure; here every ordered pair / triple of tokenizer states is followed by every kind of next item.
@@ -1732,6 +1779,14 @@ def directed_search(ck, seeds):
         rdkit_compare(ck, s.split()[0] if s.split() else s, 'directed')
         if 'f:' in s:
             cx_reaction_oracle(ck, s)
+        res, _ = classify(s)
+        if res is not None and '[' in s:
+            mismatch_oracle(ck, s, res)
+            for t in re.findall(r'\[[^\]]*\]', s)[:4]:         # the bracket atoms of the text alone, as a component, as a reagent
+                for u in (t, t + '.C', 'CCO>' + t + '>CC=O'):
+                    r2, _ = classify(u)
+                    if r2 is not None:
+                        mismatch_oracle(ck, u, r2)
         if '^' in s:
             cx_radical_oracle(ck, s)
             for _ in range(6):          # the same text with marks on other atoms
@@ -1792,6 +1847,8 @@ def search(ck):
                 bracket_oracle(ck, s, res)
             if e is None and not kw and isinstance(res, MoleculeContainer) and ' ' not in s:
                 lexical_oracle(ck, s, res)
+            if e is None and not kw and '[' in s:
+                mismatch_oracle(ck, s, res)
             if e is None and any(ord(c) > 127 for c in s.split()[0]):
                 ck.counterexample(f'accepted-outside-language:{s}', 'a text with non-ASCII characters in the SMILES part is accepted', {'smiles': s},
                                   str(res), 'IncorrectSmiles', 'the SMILES alphabet is ASCII', replay_py=f"from chython import smiles\nprint(smiles({s!r}))")
@@ -1865,6 +1922,17 @@ def search(ck):
     for _ in range(500 if quick else 6000):
         n_rad += cx_radical_oracle(ck, gen_cx_radical(rng))
     ck.extra['cx_radical_oracle_compared'] = n_rad
+    # (7) written hydrogen counts: what is reported as a mismatch must be an invalid valence state (every element x 0..4 H alone, generated
+    #     environments / dot components / reaction members, the hydrogen family of the correspondence)
+    n_h = 0
+    for s in gen_hydrogen_texts(rng, 400 if quick else 5000) + hydrogen_inputs(ck):
+        res, e = classify(s)
+        if e is not None and not isinstance(e, ValueError):
+            report_crash(ck, s, {}, e)
+        if res is not None:
+            ck.case(('hydrogen', s), nontrivial=bool(getattr(res, 'meta', None)))
+            n_h += mismatch_oracle(ck, s, res)
+    ck.extra['hydrogen_mismatch_atoms_checked'] = n_h
     return True
 
 
